@@ -93,6 +93,8 @@ ShowSpan(sp, v) ==
   CASE sp.form = "plus" -> ShowTime(sp.s, v) \o "+"
     [] sp.form = "rangeplus" -> ShowTime(sp.s, v) \o v.dash \o ShowTime(sp.e, v) \o "+"
     [] sp.form = "repeat" -> ShowTime(sp.s, v) \o "-" \o ShowTime(sp.e, v) \o "/" \o D2(sp.repeats)
+    \* the interval written as hours and minutes (the only spelling from one hour on)
+    [] sp.form = "repeat_hm" -> ShowTime(sp.s, v) \o "-" \o ShowTime(sp.e, v) \o "/" \o D2(sp.repeats \div 60) \o ":" \o D2(sp.repeats % 60)
     [] OTHER -> ShowTime(sp.s, v) \o v.dash \o ShowTime(sp.e, v)
 
 \* --- rules ----------------------------------------------------------------------
@@ -139,7 +141,7 @@ DenMonthday(r) == IF r.t = "month" THEN [t |-> "month", a |-> r.a, b |-> r.b, ye
                   ELSE [t |-> "date", s |-> DenBound(r.s), e |-> DenBound(r.e)]
 DenWeekday(r) == IF r.t = "holiday" THEN [t |-> "holiday", kind |-> r.kind, days |-> r.days]
                  ELSE [t |-> "fixed", a |-> r.a, b |-> r.b, days |-> r.days, nth |-> r.nth, nthr |-> r.nthr]
-DenSpan(sp) == [s |-> sp.s, e |-> sp.e, open_end |-> sp.form \in {"plus", "rangeplus"}, repeats |-> IF sp.form = "repeat" THEN sp.repeats ELSE -1]
+DenSpan(sp) == [s |-> sp.s, e |-> sp.e, open_end |-> sp.form \in {"plus", "rangeplus"}, repeats |-> IF sp.form \in {"repeat", "repeat_hm"} THEN sp.repeats ELSE -1]
 DenRule(w) ==
   [op |-> w.op,
    kind |-> IF w.kindword = "" THEN "open" ELSE w.kindword,
